@@ -80,6 +80,9 @@ pub fn run(prop: &str, tier: Tier) -> i32 {
 }
 
 pub fn replay(prop: &str, path: &str) -> i32 {
+    if path.ends_with(".bin") {
+        return crate::fuzzrun::replay_bytes(prop, path);
+    }
     let txt = match std::fs::read_to_string(path) {
         Ok(t) => t,
         Err(e) => {
